@@ -104,6 +104,16 @@ impl MT210 {
             }
         }
 
+        // The repetitive sequence is mandatory; its only mandatory field is 32B
+        if transactions.is_empty() {
+            return Err(ParseError::MissingRequiredField {
+                field_tag: "32B".to_string(),
+                field_name: "32B".to_string(),
+                message_type: "210".to_string(),
+                position_in_block4: None,
+            });
+        }
+
         // Reject anything left after the last field of the type
         verify_parser_complete(&parser)?;
 
